@@ -50,8 +50,9 @@ def rat(text, tol=1e-12):
     return [0, 0]
 
 
-def parse_items(res, matnum):
-    """Written composition of material `matnum` (None-safe), plus block-level facts."""
+def parse_items(res, matnum, rhotext=None):
+    """Written composition of material `matnum` (None-safe), plus block-level facts.  When the material is used at
+    several densities the composition whose name carries the value of `rhotext` is taken."""
     out = {'found': 0, 'type': '', 'names': [], 'values': [], 'nb_atom': False, 'dens': [0, 1], 'm0': False,
            'declared': -1, 'nwritten': 0}
     t4 = t4file.parse(res['out'])
@@ -59,6 +60,14 @@ def parse_items(res, matnum):
     if c is None:
         return out
     items = [it for it in c['items'] if it['name'].startswith('m%d_' % matnum)]
+    if rhotext is not None and len(items) > 1:
+        from ..adeck import mcnp_float
+        def same(it):
+            try:
+                return mcnp_float(it['name'].partition('_')[2]) == mcnp_float(rhotext)
+            except ValueError:
+                return False
+        items = [it for it in items if same(it)] or items
     out['m0'] = any(it['name'] == 'm0' for it in c['items'])
     out['declared'] = int(c['declared']) if c['declared'].isdigit() else -1
     out['nwritten'] = len(c['items'])
@@ -76,8 +85,13 @@ def parse_items(res, matnum):
 def run_one(job):
     """One deck with two materials (cells 1 and 2); returns one trace per material."""
     tid, (rec1, toks1, rho1), (rec2, toks2, rho2) = job
-    deck = ('composition test\n1 1 %s -1 imp:n=1\n2 2 %s 1 -2 imp:n=1\n3 0 2 imp:n=0\n\n1 so 5\n2 so 8\n\nm1 %s\nm2 %s\n'
-            % (rho1, rho2, ' '.join(toks1), ' '.join(toks2)))
+    one_card = toks2 is None       # ONE material card used by two cells, at a mass density and at an atom density
+    if one_card:
+        deck = ('composition test\n1 1 %s -1 imp:n=1\n2 1 %s 1 -2 imp:n=1\n3 0 2 imp:n=0\n\n1 so 5\n2 so 8\n\nm1 %s\n'
+                % (rho1, rho2, ' '.join(toks1)))
+    else:
+        deck = ('composition test\n1 1 %s -1 imp:n=1\n2 2 %s 1 -2 imp:n=1\n3 0 2 imp:n=0\n\n1 so 5\n2 so 8\n\nm1 %s\nm2 %s\n'
+                % (rho1, rho2, ' '.join(toks1), ' '.join(toks2)))
     res = conv.convert(deck)
     outs = []
     for k, rec in ((1, rec1), (2, rec2)):
@@ -87,7 +101,7 @@ def run_one(job):
                'declared': -1, 'nwritten': 0, 'text': deck, 'err': res['error'], 'warnings': res['warnings'],
                'other_rejected': False, 'same_density_text': rho1 == rho2}
         if res['result'] == 'ok':
-            out.update(parse_items(res, k))
+            out.update(parse_items(res, 1 if one_card else k, rho1 if k == 1 else rho2))
         outs.append(out)
     return outs
 
@@ -115,6 +129,13 @@ def main():
     for i in range(0, len(recs) - 1, 2):
         r1, r2 = recs[i], recs[i + 1]
         rho1 = rng.choice(RHO_SPELL[tuple(r1['rho'])])
+        if i % 10 == 4:
+            # one card, two cells, densities of opposite sign (the kind of composition goes with the cell's density)
+            other = [k for k in RHO_SPELL if (k[0] > 0) != (r1['rho'][0] > 0)]
+            rho_b = list(rng.choice(sorted(other)))
+            r2 = dict(r1, rho=rho_b)
+            jobs.append((i // 2 + 1, (r1, card_text(r1, rng), rho1), (r2, None, rng.choice(RHO_SPELL[tuple(rho_b)]))))
+            continue
         if rng.random() < 0.4:
             r2 = dict(r2, rho=r1['rho'])          # two materials at the same density
             rho2 = rho1
